@@ -1265,9 +1265,26 @@ def pure_helper(P, f, depth=0):
     if key in _PURE_MEMO:
         return _PURE_MEMO[key]
     _PURE_MEMO[key] = False
+    private = not (f.j.get("vis") or "Public").startswith("Public")
     ok = (f.body is not None and not f.derived and f.kind in ("fn", "assoc_fn") and f.impl_trait is None and
-          not (f.j.get("vis") or "Public").startswith("Public") and len(f.body.blocks) <= 120 and
+          len(f.body.blocks) <= 120 and
           f.crate in ("halo_pair", "halo_factory", "halo_router", "haloswap", "bignumber") and "::tests::" not in f.path and "mock_querier" not in f.path)
+    if ok and not private:
+        # a public free function is inlined too when it is a plain value helper: not one of the resolved role functions
+        # (whose call sites the rules anchor on), no querier / storage / deps parameter, not a method of a wire type
+        ok = (f.kind == "fn" and f.path not in getattr(P, "_role_fns", set()) and f.crate != "bignumber" and len(f.body.blocks) <= 24 and
+              not re.search(r"QuerierWrapper|cosmwasm_std::Deps|DepsMut|dyn cosmwasm_std::Storage", f.sig or ""))
+        if ok:
+            # no arithmetic inside: calculators are anchors of the numeric rules, not value plumbing
+            for b_, blk_ in enumerate(f.body.blocks):
+                t__ = blk_["term"]
+                if t__["k"] == "call":
+                    p__, _fr = callee_of(t__)
+                    if p__ and re.search(r"(bignumber::|ops::(Add|Sub|Mul|Div|Rem)|multiply_ratio|from_ratio|integer_sqrt|checked_(add|sub|mul|div)|::pow$)", p__):
+                        ok = False
+                for st_ in blk_["stmts"]:
+                    if st_["k"] == "assign" and st_["rv"]["k"] == "binop" and st_["rv"].get("op") in ("Add", "Sub", "Mul", "Div", "Rem", "AddWithOverflow", "SubWithOverflow", "MulWithOverflow"):
+                        ok = False
     if ok:
         if f.body.back_edges():
             ok = False
